@@ -296,6 +296,21 @@ def ob_cli():
                 n += 1
                 if out.getvalue().splitlines() != want:
                     bad.append((pat, src, out.getvalue(), want))
+                if i == 0 and pat == "x = 1":
+                    # once through the entry point of the installed command (pyrefind), whose arguments come from sys.argv
+                    import subprocess
+                    import sys
+
+                    from vk.common import REPO
+
+                    env = dict(os.environ, PYTHONPATH=REPO)
+                    # the way the installed console script calls it: main() without arguments
+                    code = "import sys; from pyrefact.pattern_matching import main; sys.exit(main())"
+                    p_ = subprocess.run([sys.executable, "-c", code, "find", pat, path],
+                                        capture_output=True, text=True, env=env, timeout=120)
+                    n += 1
+                    if p_.stdout.splitlines() != want:
+                        bad.append(("command line", pat, p_.stdout + p_.stderr[-300:], want))
     return {"status": "refuted" if bad else "confirmed", "paths": n, "checks": 0, "solver_s": 0.0, "claims": n,
             "cexs": [{"model": {}, "info": {"bad": str(bad)[:300]}}] if bad else []}
 
